@@ -97,6 +97,11 @@ Mutate(op, recv, dst, inplace, d, k, i) ==
                   [] op = "replace" -> ReplaceDim(s, k, d)
        IN  Apply(op, recv, dst, inplace, v, <<d, k, i>>)
 
+\* expand_by with SEVERAL dimensions: the added ones must not clash with the set nor with each other
+ExpandMany(recv, dst, inplace, added) ==
+    /\ Defined(recv)
+    /\ Apply("expand_many", recv, dst, inplace, Expand(ds[recv], added), <<added>>)
+
 GetSubset(recv, dst, keys) ==
     /\ Defined(recv)
     /\ Apply("subset", recv, dst, FALSE, Subset(ds[recv], keys), <<keys>>)
